@@ -27,7 +27,7 @@ for pid, reason in sorted(claims['not_applicable'].items()):
     out.append("**%s — not applicable.** %s\n" % (pid, reason))
 out.append("\n## 13. Seeded changes (independent sub-agents) and what caught them\n")
 out.append("Each change below was written by a fresh sub-agent that saw only the text of\none property and a scratch worktree; it compiles, passes the 141 existing\ntests, and its own demonstration fails with it and passes without it (all\nconfirmed again by `tools/confirm_mutation.sh`). `tools/run_seeded.sh` applies\na change in a scratch worktree of `/repo` and runs a registered check against\nit (`VERIF_REPO`). \"caught\" = exit 1 with a `VIOLATION` line after native\nreplay.\n")
-metas = [json.load(open(d)) for d in sorted(glob.glob(V + '/seeded/*/meta.json'))]
+metas = [json.load(open(d)) for d in sorted(glob.glob(V + '/seeded/*/meta.json')) if 'fixrevert' not in d]
 nq = sum(1 for m in metas if (m.get('detected_by') or {}).get('tier') == 'quick')
 nt = sum(1 for m in metas if (m.get('detected_by') or {}).get('tier') == 'thorough')
 out.append("**Result: %d of %d seeded changes are caught (%d by a quick-tier check, %d only by the thorough tier); %d are not caught.** The misses and why:\n" % (nq + nt, len(metas), nq, nt, len(metas) - nq - nt))
